@@ -29,8 +29,9 @@ Theorem C08_cycle_has_guard_or_descent :
 Proof. exact cycle_has_guard_or_descent. Qed.
 Print Assumptions C08_cycle_has_guard_or_descent.
 
-(* Depth bound.  p is the list of functions whose frames are on the stack (outermost first),
-   fs their frame costs (each between 0 and M).  If every guard on p saw at most B bytes in use
+(* Depth bound.  p is the list of functions whose frames were pushed after run_inner recorded
+   stack_base (outermost first; what lies above — main, the CLI, run_inner's own frame — and the
+   error-report path belong to the headroom), fs their frame costs (each between 0 and M).  If every guard on p saw at most B bytes in use
    outside its own frame (otherwise it would have reported the overflow instead of going on),
    and every guard-free stretch of p takes at most d descent edges, then the stack in use is at
    most B + M + (d+1) * (cost of the most expensive path of the graph without guards and
@@ -145,7 +146,7 @@ Print Assumptions C08_descent_depth_unbounded.
 
 (* user recursion  f() { return f() }  as a call path of the generated graph: two activations *)
 Definition demo_path : list node :=
-  [id_Runtime_run_inner; id_Runtime_exec_block_with_flow; id_Runtime_exec_stmt; id_Runtime_eval_expr;
+  [id_Runtime_exec_block_with_flow; id_Runtime_exec_stmt; id_Runtime_eval_expr;
    id_Runtime_eval_function_call; id_Runtime_exec_block_with_flow; id_Runtime_exec_stmt; id_Runtime_eval_expr;
    id_Runtime_eval_function_call; id_Runtime_exec_block_with_flow; id_Runtime_exec_stmt; id_Runtime_eval_expr;
    id_Runtime_lookup_var; id_Value_clone_into].
